@@ -28,6 +28,7 @@ type Knobs struct {
 	MaxTail   int    `json:"max_tail,omitempty"`
 	MaxMacro  int    `json:"max_macro,omitempty"`
 	MaxLogic  int    `json:"max_logical,omitempty"`
+	HandBuilt bool   `json:"hand_built,omitempty"` // the Runtime is a composite literal handed to NewEnvRuntime
 	MaxSleepN int64  `json:"max_sleep_ns,omitempty"`
 	UseSimCtx bool   `json:"simctx,omitempty"` // entry points take the simulated context
 }
@@ -192,6 +193,9 @@ func (s worldStderr) Write(b []byte) (int, error) {
 func NewWorld(k Knobs) (*World, error) {
 	w := &World{K: k, Stderr: &bytes.Buffer{}, fpHits: map[int]int{}}
 	env := lisp.NewEnv(nil)
+	if k.HandBuilt {
+		env = lisp.NewEnvRuntime(&lisp.Runtime{Registry: lisp.NewRegistry(), Stack: &lisp.CallStack{}})
+	}
 	env.Runtime.Reader = parser.NewReader()
 	env.Runtime.Stderr = worldStderr{w}
 	var cfg []lisp.Config
@@ -267,6 +271,10 @@ func (w *World) installProbes() error {
 		elpsutil.Function("cur-pkg", lisp.Formals(), w.bCurPkg),
 		elpsutil.Function("mark", lisp.Formals("id"), w.bMark),
 		elpsutil.Function("handle", lisp.Formals(), bHandle),
+		// an embedder's own binding of the library's sleep under one formal
+		elpsutil.Function("nap", lisp.Formals("d"), func(env *lisp.LEnv, args *lisp.LVal) *lisp.LVal {
+			return libtime.BuiltinSleep(env, lisp.SExpr([]*lisp.LVal{args.Cells[0]}))
+		}),
 		// host builtins meant to be used AS HANDLERS in handler-bind: each is
 		// the fault point 91 / 92 and yields the number of data values
 		elpsutil.Function("hf1", lisp.Formals("c", lisp.VarArgSymbol, "d"), func(env *lisp.LEnv, args *lisp.LVal) *lisp.LVal {
